@@ -1,13 +1,696 @@
-//! c06: bounded stand-in (E3) -- standard security handler against an independent reference implementation
-#![allow(dead_code, unused_imports)]
+//! C06: the standard security handler agrees with ISO 32000 algorithms (bounded-exhaustive, E3).
+//!
+//! The oracle is an INDEPENDENT reference implementation of the standard security handler, written in this file from the
+//! text of ISO 32000-1:2008 7.6 and ISO 32000-2:2020 7.6 (Algorithms 1, 1.A, 2, 2.A, 2.B, 3-13).  It shares no code with
+//! the library: MD5 (RFC 1321), SHA-256/384/512 (FIPS 180-4), AES-128/256 with CBC and ECB (FIPS 197) and RC4 are
+//! implemented below from their definitions (round constants and the S-box are DERIVED - sines, cube/square roots of primes,
+//! GF(2^8) inverses - not copied) and are checked against published known-answer vectors before anything else runs; a
+//! failing self-test is a defect of the harness: message on stderr and exit status 3 (inconclusive).
+//!
+//! Direction A: the reference encrypts a small document and serialises it with its own PDF writer (xref table, or xref
+//!   stream + an object stream); lopdf must load it, accept the user and the owner password, derive the same file key,
+//!   return every string and stream byte for byte, and reject wrong passwords.
+//! Direction B: lopdf encrypts and saves; the reference reads the encryption dictionary, checks its entries, recomputes
+//!   O / U (R2-4) or validates U, O, UE, OE, Perms (R5-6), authenticates with both passwords and decrypts every string and stream.
+//!
+//! Obligation names: `reference-encrypted-opens-in-lopdf`, `file-key`, `object-key`, `wrong-password-rejected`,
+//! `objstm-strings`, `encrypt-ok`, `dict-V-R-Length`, `P-word`, `dict-crypt-filters`, `O-value`, `U-value`, `perms`,
+//! `lopdf-encrypted-opens-in-reference`, `id-not-encrypted`, `no-panic`; an input-class suffix is appended for the
+//! variants that are a class of their own: `-identity` (StmF or StrF is the predefined /Identity filter), `-length-absent`
+//! / `-length-256` (top-level /Length toggled), `-direct-dict` (/Encrypt is a direct dictionary), `-identity-in-cf`.
+//!
+//! Debugging aids (never set by the driver): `C06_PERTURB=<name>` deliberately breaks the REFERENCE in one place (see
+//! `pt`) to demonstrate that the check is sensitive; the report is then labelled PERTURBED and not exhaustive.
+//! `C06_STATS=1` prints failing-case counts per obligation on stderr.
+#![allow(dead_code, unused_imports, deprecated, clippy::all)]
 use crate::common::*;
-use crate::gen::*;
+use lopdf::encryption::crypt_filters::{Aes128CryptFilter, Aes256CryptFilter, CryptFilter, IdentityCryptFilter, Rc4CryptFilter};
+use lopdf::xref::XrefType;
+use lopdf::{Dictionary, Document, EncryptionState, EncryptionVersion, Object, Permissions, Stream, StringFormat};
+use rayon::prelude::*;
 use serde_json::{json, Value};
+use std::collections::BTreeMap;
+use std::panic::AssertUnwindSafe;
+use std::sync::{Arc, OnceLock};
 
-pub fn run(_thorough: bool) -> Report {
-    Report::new("not built yet", false)
+// ===============================================================================================================
+// 1. primitives, from their definitions
+// ===============================================================================================================
+
+// ---- MD5 (RFC 1321) --------------------------------------------------------------------------------------------
+fn md5_t() -> &'static [u32; 64] {
+    static T: OnceLock<[u32; 64]> = OnceLock::new();
+    T.get_or_init(|| {
+        let mut t = [0u32; 64];
+        for (i, v) in t.iter_mut().enumerate() { *v = (((i as f64) + 1.0).sin().abs() * 4294967296.0).floor() as u64 as u32; }
+        t
+    })
 }
 
-pub fn replay(_v: &Value) -> Result<(), String> {
-    Err("no replay".into())
+pub fn md5(data: &[u8]) -> [u8; 16] {
+    let t = md5_t();
+    const S: [u32; 16] = [7, 12, 17, 22, 5, 9, 14, 20, 4, 11, 16, 23, 6, 10, 15, 21];
+    let mut h: [u32; 4] = [0x67452301, 0xefcdab89, 0x98badcfe, 0x10325476];
+    let mut msg = data.to_vec();
+    msg.push(0x80);
+    while msg.len() % 64 != 56 { msg.push(0); }
+    msg.extend_from_slice(&((data.len() as u64).wrapping_mul(8)).to_le_bytes());
+    for chunk in msg.chunks(64) {
+        let mut m = [0u32; 16];
+        for (i, w) in m.iter_mut().enumerate() { *w = u32::from_le_bytes([chunk[4 * i], chunk[4 * i + 1], chunk[4 * i + 2], chunk[4 * i + 3]]); }
+        let (mut a, mut b, mut c, mut d) = (h[0], h[1], h[2], h[3]);
+        for i in 0..64usize {
+            let (f, g) = match i / 16 {
+                0 => ((b & c) | (!b & d), i),
+                1 => ((d & b) | (!d & c), (5 * i + 1) % 16),
+                2 => (b ^ c ^ d, (3 * i + 5) % 16),
+                _ => (c ^ (b | !d), (7 * i) % 16),
+            };
+            let x = f.wrapping_add(a).wrapping_add(t[i]).wrapping_add(m[g]);
+            a = d; d = c; c = b;
+            b = b.wrapping_add(x.rotate_left(S[(i / 16) * 4 + i % 4]));
+        }
+        h[0] = h[0].wrapping_add(a); h[1] = h[1].wrapping_add(b); h[2] = h[2].wrapping_add(c); h[3] = h[3].wrapping_add(d);
+    }
+    let mut out = [0u8; 16];
+    for i in 0..4 { out[4 * i..4 * i + 4].copy_from_slice(&h[i].to_le_bytes()); }
+    out
 }
+
+// ---- SHA-2 (FIPS 180-4); constants derived: fractional parts of square / cube roots of the first primes -----------
+fn bn_mul(a: &[u32], b: &[u32]) -> Vec<u32> {
+    let mut r = vec![0u32; a.len() + b.len()];
+    for i in 0..a.len() {
+        let mut carry = 0u64;
+        for j in 0..b.len() {
+            let t = r[i + j] as u64 + (a[i] as u64) * (b[j] as u64) + carry;
+            r[i + j] = t as u32;
+            carry = t >> 32;
+        }
+        r[i + b.len()] = carry as u32;
+    }
+    r
+}
+fn bn_le(a: &[u32], b: &[u32]) -> bool {
+    // a <= b
+    let n = a.len().max(b.len());
+    for i in (0..n).rev() {
+        let x = a.get(i).copied().unwrap_or(0);
+        let y = b.get(i).copied().unwrap_or(0);
+        if x != y { return x < y; }
+    }
+    true
+}
+fn bn_from(x: u128) -> Vec<u32> { vec![x as u32, (x >> 32) as u32, (x >> 64) as u32, (x >> 96) as u32] }
+/// floor((p * 2^shift)^(1/n)) for n = 2 or 3; shift a multiple of 32
+fn iroot(p: u64, shift: usize, n: u32) -> u128 {
+    let mut target = vec![0u32; shift / 32];
+    target.push(p as u32);
+    target.push((p >> 32) as u32);
+    let (mut lo, mut hi) = (0u128, 1u128 << 72);
+    while hi - lo > 1 {
+        let mid = lo + (hi - lo) / 2;
+        let m = bn_from(mid);
+        let mut pw = bn_mul(&m, &m);
+        if n == 3 { pw = bn_mul(&pw, &m); }
+        if bn_le(&pw, &target) { lo = mid; } else { hi = mid; }
+    }
+    lo
+}
+fn first_primes(n: usize) -> Vec<u64> {
+    let mut v: Vec<u64> = vec![];
+    let mut c = 2u64;
+    while v.len() < n {
+        if v.iter().all(|p| c % p != 0) { v.push(c); }
+        c += 1;
+    }
+    v
+}
+struct ShaConsts { k512: [u64; 80], h512: [u64; 8], h384: [u64; 8] }
+fn sha_consts() -> &'static ShaConsts {
+    static C: OnceLock<ShaConsts> = OnceLock::new();
+    C.get_or_init(|| {
+        let p = first_primes(80);
+        let mut c = ShaConsts { k512: [0; 80], h512: [0; 8], h384: [0; 8] };
+        for i in 0..80 { c.k512[i] = iroot(p[i], 192, 3) as u64; }
+        for i in 0..8 { c.h512[i] = iroot(p[i], 128, 2) as u64; c.h384[i] = iroot(p[i + 8], 128, 2) as u64; }
+        c
+    })
+}
+
+pub fn sha256(data: &[u8]) -> [u8; 32] {
+    let c = sha_consts();
+    let mut h = [0u32; 8];
+    for i in 0..8 { h[i] = (c.h512[i] >> 32) as u32; }
+    let mut msg = data.to_vec();
+    msg.push(0x80);
+    while msg.len() % 64 != 56 { msg.push(0); }
+    msg.extend_from_slice(&((data.len() as u64).wrapping_mul(8)).to_be_bytes());
+    for chunk in msg.chunks(64) {
+        let mut w = [0u32; 64];
+        for i in 0..16 { w[i] = u32::from_be_bytes([chunk[4 * i], chunk[4 * i + 1], chunk[4 * i + 2], chunk[4 * i + 3]]); }
+        for i in 16..64 {
+            let s0 = w[i - 15].rotate_right(7) ^ w[i - 15].rotate_right(18) ^ (w[i - 15] >> 3);
+            let s1 = w[i - 2].rotate_right(17) ^ w[i - 2].rotate_right(19) ^ (w[i - 2] >> 10);
+            w[i] = w[i - 16].wrapping_add(s0).wrapping_add(w[i - 7]).wrapping_add(s1);
+        }
+        let mut v = h;
+        for i in 0..64 {
+            let s1 = v[4].rotate_right(6) ^ v[4].rotate_right(11) ^ v[4].rotate_right(25);
+            let ch = (v[4] & v[5]) ^ (!v[4] & v[6]);
+            let t1 = v[7].wrapping_add(s1).wrapping_add(ch).wrapping_add((c.k512[i] >> 32) as u32).wrapping_add(w[i]);
+            let s0 = v[0].rotate_right(2) ^ v[0].rotate_right(13) ^ v[0].rotate_right(22);
+            let maj = (v[0] & v[1]) ^ (v[0] & v[2]) ^ (v[1] & v[2]);
+            let t2 = s0.wrapping_add(maj);
+            v[7] = v[6]; v[6] = v[5]; v[5] = v[4]; v[4] = v[3].wrapping_add(t1); v[3] = v[2]; v[2] = v[1]; v[1] = v[0]; v[0] = t1.wrapping_add(t2);
+        }
+        for i in 0..8 { h[i] = h[i].wrapping_add(v[i]); }
+    }
+    let mut out = [0u8; 32];
+    for i in 0..8 { out[4 * i..4 * i + 4].copy_from_slice(&h[i].to_be_bytes()); }
+    out
+}
+
+fn sha512_core(data: &[u8], iv: &[u64; 8]) -> [u8; 64] {
+    let c = sha_consts();
+    let mut h = *iv;
+    let mut msg = data.to_vec();
+    msg.push(0x80);
+    while msg.len() % 128 != 112 { msg.push(0); }
+    msg.extend_from_slice(&((data.len() as u128).wrapping_mul(8)).to_be_bytes());
+    for chunk in msg.chunks(128) {
+        let mut w = [0u64; 80];
+        for i in 0..16 { let mut b = [0u8; 8]; b.copy_from_slice(&chunk[8 * i..8 * i + 8]); w[i] = u64::from_be_bytes(b); }
+        for i in 16..80 {
+            let s0 = w[i - 15].rotate_right(1) ^ w[i - 15].rotate_right(8) ^ (w[i - 15] >> 7);
+            let s1 = w[i - 2].rotate_right(19) ^ w[i - 2].rotate_right(61) ^ (w[i - 2] >> 6);
+            w[i] = w[i - 16].wrapping_add(s0).wrapping_add(w[i - 7]).wrapping_add(s1);
+        }
+        let mut v = h;
+        for i in 0..80 {
+            let s1 = v[4].rotate_right(14) ^ v[4].rotate_right(18) ^ v[4].rotate_right(41);
+            let ch = (v[4] & v[5]) ^ (!v[4] & v[6]);
+            let t1 = v[7].wrapping_add(s1).wrapping_add(ch).wrapping_add(c.k512[i]).wrapping_add(w[i]);
+            let s0 = v[0].rotate_right(28) ^ v[0].rotate_right(34) ^ v[0].rotate_right(39);
+            let maj = (v[0] & v[1]) ^ (v[0] & v[2]) ^ (v[1] & v[2]);
+            let t2 = s0.wrapping_add(maj);
+            v[7] = v[6]; v[6] = v[5]; v[5] = v[4]; v[4] = v[3].wrapping_add(t1); v[3] = v[2]; v[2] = v[1]; v[1] = v[0]; v[0] = t1.wrapping_add(t2);
+        }
+        for i in 0..8 { h[i] = h[i].wrapping_add(v[i]); }
+    }
+    let mut out = [0u8; 64];
+    for i in 0..8 { out[8 * i..8 * i + 8].copy_from_slice(&h[i].to_be_bytes()); }
+    out
+}
+pub fn sha512(data: &[u8]) -> Vec<u8> { sha512_core(data, &sha_consts().h512).to_vec() }
+pub fn sha384(data: &[u8]) -> Vec<u8> { sha512_core(data, &sha_consts().h384)[..48].to_vec() }
+
+// ---- AES (FIPS 197) --------------------------------------------------------------------------------------------
+fn gmul(mut a: u8, mut b: u8) -> u8 {
+    let mut p = 0u8;
+    for _ in 0..8 {
+        if b & 1 != 0 { p ^= a; }
+        let hi = a & 0x80;
+        a <<= 1;
+        if hi != 0 { a ^= 0x1b; }
+        b >>= 1;
+    }
+    p
+}
+struct AesTables { sbox: [u8; 256], inv: [u8; 256], te: [[u32; 256]; 4], m9: [u8; 256], m11: [u8; 256], m13: [u8; 256], m14: [u8; 256] }
+fn aes_tables() -> &'static AesTables {
+    static T: OnceLock<Box<AesTables>> = OnceLock::new();
+    T.get_or_init(|| {
+        let mut t = Box::new(AesTables { sbox: [0; 256], inv: [0; 256], te: [[0; 256]; 4], m9: [0; 256], m11: [0; 256], m13: [0; 256], m14: [0; 256] });
+        for x in 0..256usize {
+            let mut inv = 0u8;
+            if x != 0 { for y in 1..=255u8 { if gmul(x as u8, y) == 1 { inv = y; break; } } }
+            let s = inv ^ inv.rotate_left(1) ^ inv.rotate_left(2) ^ inv.rotate_left(3) ^ inv.rotate_left(4) ^ 0x63;
+            t.sbox[x] = s;
+            t.inv[s as usize] = x as u8;
+            let w = ((gmul(s, 2) as u32) << 24) | ((s as u32) << 16) | ((s as u32) << 8) | (gmul(s, 3) as u32);
+            t.te[0][x] = w; t.te[1][x] = w.rotate_right(8); t.te[2][x] = w.rotate_right(16); t.te[3][x] = w.rotate_right(24);
+            t.m9[x] = gmul(x as u8, 9); t.m11[x] = gmul(x as u8, 11); t.m13[x] = gmul(x as u8, 13); t.m14[x] = gmul(x as u8, 14);
+        }
+        t
+    })
+}
+pub struct Aes { rk: Vec<u32>, nr: usize }
+impl Aes {
+    pub fn new(key: &[u8]) -> Aes {
+        assert!(key.len() == 16 || key.len() == 32, "reference AES: key of {} bytes", key.len());
+        let t = aes_tables();
+        let nk = key.len() / 4;
+        let nr = nk + 6;
+        let sub = |w: u32| -> u32 { let b = w.to_be_bytes(); u32::from_be_bytes([t.sbox[b[0] as usize], t.sbox[b[1] as usize], t.sbox[b[2] as usize], t.sbox[b[3] as usize]]) };
+        let mut rk = vec![0u32; 4 * (nr + 1)];
+        for i in 0..nk { rk[i] = u32::from_be_bytes([key[4 * i], key[4 * i + 1], key[4 * i + 2], key[4 * i + 3]]); }
+        let mut rc = 1u8;
+        for i in nk..4 * (nr + 1) {
+            let mut tmp = rk[i - 1];
+            if i % nk == 0 { tmp = sub(tmp.rotate_left(8)) ^ ((rc as u32) << 24); rc = gmul(rc, 2); }
+            else if nk > 6 && i % nk == 4 { tmp = sub(tmp); }
+            rk[i] = rk[i - nk] ^ tmp;
+        }
+        Aes { rk, nr }
+    }
+    pub fn enc_block(&self, b: &mut [u8]) {
+        let t = aes_tables();
+        let rk = &self.rk;
+        let ld = |b: &[u8], i: usize| u32::from_be_bytes([b[4 * i], b[4 * i + 1], b[4 * i + 2], b[4 * i + 3]]);
+        let mut s = [ld(b, 0) ^ rk[0], ld(b, 1) ^ rk[1], ld(b, 2) ^ rk[2], ld(b, 3) ^ rk[3]];
+        for r in 1..self.nr {
+            let mut n = [0u32; 4];
+            for c in 0..4 {
+                n[c] = t.te[0][(s[c] >> 24) as usize] ^ t.te[1][((s[(c + 1) % 4] >> 16) & 255) as usize] ^ t.te[2][((s[(c + 2) % 4] >> 8) & 255) as usize] ^ t.te[3][(s[(c + 3) % 4] & 255) as usize] ^ rk[4 * r + c];
+            }
+            s = n;
+        }
+        for c in 0..4 {
+            let w = ((t.sbox[(s[c] >> 24) as usize] as u32) << 24) | ((t.sbox[((s[(c + 1) % 4] >> 16) & 255) as usize] as u32) << 16)
+                | ((t.sbox[((s[(c + 2) % 4] >> 8) & 255) as usize] as u32) << 8) | (t.sbox[(s[(c + 3) % 4] & 255) as usize] as u32);
+            b[4 * c..4 * c + 4].copy_from_slice(&(w ^ rk[4 * self.nr + c]).to_be_bytes());
+        }
+    }
+    /// the straightforward inverse cipher of FIPS 197 5.3 on a byte state (index = 4 * column + row)
+    pub fn dec_block(&self, b: &mut [u8]) {
+        let t = aes_tables();
+        let mut s = [0u8; 16];
+        s.copy_from_slice(&b[..16]);
+        let ark = |s: &mut [u8; 16], r: usize| { for c in 0..4 { let w = self.rk[4 * r + c].to_be_bytes(); for i in 0..4 { s[4 * c + i] ^= w[i]; } } };
+        let isr_isb = |s: &mut [u8; 16]| {
+            let o = *s;
+            for c in 0..4 { for i in 0..4 { s[4 * c + i] = t.inv[o[4 * ((c + 4 - i) % 4) + i] as usize]; } }
+        };
+        ark(&mut s, self.nr);
+        for r in (1..self.nr).rev() {
+            isr_isb(&mut s);
+            ark(&mut s, r);
+            for c in 0..4 {
+                let a = [s[4 * c] as usize, s[4 * c + 1] as usize, s[4 * c + 2] as usize, s[4 * c + 3] as usize];
+                s[4 * c] = t.m14[a[0]] ^ t.m11[a[1]] ^ t.m13[a[2]] ^ t.m9[a[3]];
+                s[4 * c + 1] = t.m9[a[0]] ^ t.m14[a[1]] ^ t.m11[a[2]] ^ t.m13[a[3]];
+                s[4 * c + 2] = t.m13[a[0]] ^ t.m9[a[1]] ^ t.m14[a[2]] ^ t.m11[a[3]];
+                s[4 * c + 3] = t.m11[a[0]] ^ t.m13[a[1]] ^ t.m9[a[2]] ^ t.m14[a[3]];
+            }
+        }
+        isr_isb(&mut s);
+        ark(&mut s, 0);
+        b[..16].copy_from_slice(&s);
+    }
+}
+/// CBC without padding; `data.len()` must be a multiple of 16
+pub fn aes_cbc_enc(key: &[u8], iv: &[u8], data: &[u8]) -> Vec<u8> {
+    assert!(data.len() % 16 == 0 && iv.len() == 16);
+    let a = Aes::new(key);
+    let mut prev = [0u8; 16];
+    prev.copy_from_slice(iv);
+    let mut out = data.to_vec();
+    for blk in out.chunks_mut(16) {
+        for i in 0..16 { blk[i] ^= prev[i]; }
+        a.enc_block(blk);
+        prev.copy_from_slice(blk);
+    }
+    out
+}
+pub fn aes_cbc_dec(key: &[u8], iv: &[u8], data: &[u8]) -> Vec<u8> {
+    assert!(data.len() % 16 == 0 && iv.len() == 16);
+    let a = Aes::new(key);
+    let mut prev = [0u8; 16];
+    prev.copy_from_slice(iv);
+    let mut out = data.to_vec();
+    for blk in out.chunks_mut(16) {
+        let mut c = [0u8; 16];
+        c.copy_from_slice(blk);
+        a.dec_block(blk);
+        for i in 0..16 { blk[i] ^= prev[i]; }
+        prev = c;
+    }
+    out
+}
+pub fn aes_ecb_enc(key: &[u8], block: &[u8]) -> Vec<u8> { let mut b = block.to_vec(); Aes::new(key).enc_block(&mut b); b }
+pub fn aes_ecb_dec(key: &[u8], block: &[u8]) -> Vec<u8> { let mut b = block.to_vec(); Aes::new(key).dec_block(&mut b); b }
+
+// ---- RC4 -------------------------------------------------------------------------------------------------------
+pub fn rc4(key: &[u8], data: &[u8]) -> Vec<u8> {
+    assert!(!key.is_empty());
+    let mut s = [0u8; 256];
+    for i in 0..256 { s[i] = i as u8; }
+    let mut j = 0usize;
+    for i in 0..256 {
+        j = (j + s[i] as usize + key[i % key.len()] as usize) % 256;
+        s.swap(i, j);
+    }
+    let (mut i, mut j) = (0usize, 0usize);
+    let mut out = Vec::with_capacity(data.len());
+    for &b in data {
+        i = (i + 1) % 256;
+        j = (j + s[i] as usize) % 256;
+        s.swap(i, j);
+        out.push(b ^ s[(s[i] as usize + s[j] as usize) % 256]);
+    }
+    out
+}
+
+// ---- known-answer self-test --------------------------------------------------------------------------------------
+fn self_test() -> Result<(), String> {
+    let ck = |name: &str, got: &[u8], want: &str| -> Result<(), String> { if hex(got) == want.to_lowercase() { Ok(()) } else { Err(format!("{}: got {}, published answer {}", name, hex(got), want)) } };
+    // RFC 1321 A.5
+    for (m, d) in [("", "d41d8cd98f00b204e9800998ecf8427e"), ("a", "0cc175b9c0f1b6a831c399e269772661"), ("abc", "900150983cd24fb0d6963f7d28e17f72"),
+                   ("message digest", "f96b697d7cb7938d525a2f31aaf161d0"), ("abcdefghijklmnopqrstuvwxyz", "c3fcd3d76192e4007dfb496cca67e13b"),
+                   ("ABCDEFGHIJKLMNOPQRSTUVWXYZabcdefghijklmnopqrstuvwxyz0123456789", "d174ab98d277d9f5a5611c2c9f419d9f"),
+                   ("12345678901234567890123456789012345678901234567890123456789012345678901234567890", "57edf4a22be3c955ac49da2e2107b67a")] {
+        ck(&format!("MD5({:?})", m), &md5(m.as_bytes()), d)?;
+    }
+    // FIPS 180 examples
+    let m448 = "abcdbcdecdefdefgefghfghighijhijkijkljklmklmnlmnomnopnopq";
+    let m896 = "abcdefghbcdefghicdefghijdefghijkefghijklfghijklmghijklmnhijklmnoijklmnopjklmnopqklmnopqrlmnopqrsmnopqrstnopqrstu";
+    ck("SHA-256(abc)", &sha256(b"abc"), "ba7816bf8f01cfea414140de5dae2223b00361a396177a9cb410ff61f20015ad")?;
+    ck("SHA-256()", &sha256(b""), "e3b0c44298fc1c149afbf4c8996fb92427ae41e4649b934ca495991b7852b855")?;
+    ck("SHA-256(448 bits)", &sha256(m448.as_bytes()), "248d6a61d20638b8e5c026930c3e6039a33ce45964ff2167f6ecedd419db06c1")?;
+    ck("SHA-512(abc)", &sha512(b"abc"), "ddaf35a193617abacc417349ae20413112e6fa4e89a97ea20a9eeee64b55d39a2192992a274fc1a836ba3c23a3feebbd454d4423643ce80e2a9ac94fa54ca49f")?;
+    ck("SHA-512(896 bits)", &sha512(m896.as_bytes()), "8e959b75dae313da8cf4f72814fc143f8f7779c6eb9f7fa17299aeadb6889018501d289e4900f7e4331b99dec4b5433ac7d329eeb6dd26545e96e55b874be909")?;
+    ck("SHA-384(abc)", &sha384(b"abc"), "cb00753f45a35e8bb5a03d699ac65007272c32ab0eded1631a8b605a43ff5bed8086072ba1e7cc2358baeca134c825a7")?;
+    ck("SHA-384(896 bits)", &sha384(m896.as_bytes()), "09330c33f71147e83d192fc782cd1b4753111b173b3b05d22fa08086e3b0f712fcc7c71a557e2db966c3e9fa91746039")?;
+    // FIPS 197 appendix B, C.1, C.3
+    let pt = unhex("00112233445566778899aabbccddeeff");
+    let k128 = unhex("000102030405060708090a0b0c0d0e0f");
+    let k256 = unhex("000102030405060708090a0b0c0d0e0f101112131415161718191a1b1c1d1e1f");
+    ck("AES-128 C.1 encrypt", &aes_ecb_enc(&k128, &pt), "69c4e0d86a7b0430d8cdb78070b4c55a")?;
+    ck("AES-128 C.1 decrypt", &aes_ecb_dec(&k128, &unhex("69c4e0d86a7b0430d8cdb78070b4c55a")), "00112233445566778899aabbccddeeff")?;
+    ck("AES-256 C.3 encrypt", &aes_ecb_enc(&k256, &pt), "8ea2b7ca516745bfeafc49904b496089")?;
+    ck("AES-256 C.3 decrypt", &aes_ecb_dec(&k256, &unhex("8ea2b7ca516745bfeafc49904b496089")), "00112233445566778899aabbccddeeff")?;
+    ck("AES-128 appendix B", &aes_ecb_enc(&unhex("2b7e151628aed2a6abf7158809cf4f3c"), &unhex("3243f6a8885a308d313198a2e0370734")), "3925841d02dc09fbdc118597196a0b32")?;
+    // NIST SP 800-38A F.2.1 / F.2.5 (CBC), F.1.5 (ECB-AES256)
+    let iv = unhex("000102030405060708090a0b0c0d0e0f");
+    let p2 = unhex("6bc1bee22e409f96e93d7e117393172aae2d8a571e03ac9c9eb76fac45af8e51");
+    let kc128 = unhex("2b7e151628aed2a6abf7158809cf4f3c");
+    let kc256 = unhex("603deb1015ca71be2b73aef0857d77811f352c073b6108d72d9810a30914dff4");
+    ck("CBC-AES128 F.2.1", &aes_cbc_enc(&kc128, &iv, &p2), "7649abac8119b246cee98e9b12e9197d5086cb9b507219ee95db113a917678b2")?;
+    ck("CBC-AES128 F.2.2", &aes_cbc_dec(&kc128, &iv, &unhex("7649abac8119b246cee98e9b12e9197d5086cb9b507219ee95db113a917678b2")), &hex(&p2))?;
+    ck("CBC-AES256 F.2.5", &aes_cbc_enc(&kc256, &iv, &p2), "f58c4c04d6e5f1ba779eabfb5f7bfbd69cfc4e967edb808d679f777bc6702c7d")?;
+    ck("CBC-AES256 F.2.6", &aes_cbc_dec(&kc256, &iv, &unhex("f58c4c04d6e5f1ba779eabfb5f7bfbd69cfc4e967edb808d679f777bc6702c7d")), &hex(&p2))?;
+    ck("ECB-AES256 F.1.5", &aes_ecb_enc(&kc256, &p2[..16]), "f3eed1bdb5d2a03c064b5a7e3db181f8")?;
+    // RC4 (the vectors everybody quotes)
+    ck("RC4 Key/Plaintext", &rc4(b"Key", b"Plaintext"), "BBF316E8D940AF0AD3")?;
+    ck("RC4 Wiki/pedia", &rc4(b"Wiki", b"pedia"), "1021BF0420")?;
+    ck("RC4 Secret/Attack at dawn", &rc4(b"Secret", b"Attack at dawn"), "45A01F645FC35B383552544B9BF5")?;
+    // spot values of derived constants
+    if md5_t()[0] != 0xd76aa478 || md5_t()[63] != 0xeb86d391 { return Err("MD5 sine table".into()); }
+    if sha_consts().k512[0] != 0x428a2f98d728ae22 || sha_consts().h512[0] != 0x6a09e667f3bcc908 || sha_consts().h384[0] != 0xcbbb9d5dc1059ed8 { return Err("SHA-2 derived constants".into()); }
+    if aes_tables().sbox[0] != 0x63 || aes_tables().sbox[0x53] != 0xed { return Err("AES S-box".into()); }
+    Ok(())
+}
+
+// ===============================================================================================================
+// 2. the reference standard security handler (ISO 32000-1 7.6.3 / 7.6.2, ISO 32000-2 7.6.4 / 7.6.3)
+// ===============================================================================================================
+
+/// deliberate defects of the REFERENCE, switched on by C06_PERTURB (sensitivity demonstration only)
+fn perturb() -> &'static str {
+    static P: OnceLock<String> = OnceLock::new();
+    P.get_or_init(|| std::env::var("C06_PERTURB").unwrap_or_default()).as_str()
+}
+fn pt(name: &str) -> bool { perturb() == name }
+
+/// ISO 32000-1 7.6.3.3, Algorithm 2 step (a)
+const PAD: [u8; 32] = [0x28, 0xBF, 0x4E, 0x5E, 0x4E, 0x75, 0x8A, 0x41, 0x64, 0x00, 0x4E, 0x56, 0xFF, 0xFA, 0x01, 0x08,
+                       0x2E, 0x2E, 0x00, 0xB6, 0xD0, 0x68, 0x3E, 0x80, 0x2F, 0x0C, 0xA9, 0xFE, 0x64, 0x53, 0x69, 0x7A];
+
+fn pad32(pw: &[u8]) -> [u8; 32] {
+    let n = pw.len().min(32);
+    let mut out = [0u8; 32];
+    out[..n].copy_from_slice(&pw[..n]);
+    out[n..].copy_from_slice(&PAD[..32 - n]);
+    out
+}
+
+/// PDFDocEncoding (ISO 32000-1 annex D.2) of the characters the password family uses; None = not representable
+fn pdfdoc_byte(c: char) -> Option<u8> {
+    let u = c as u32;
+    match u {
+        0x20..=0x7E => Some(u as u8),
+        0xAD => None,
+        0xA1..=0xFF => Some(u as u8),
+        0x02D8 => Some(0x18), 0x02C7 => Some(0x19), 0x02C6 => Some(0x1A), 0x02D9 => Some(0x1B), 0x02DD => Some(0x1C), 0x02DB => Some(0x1D), 0x02DA => Some(0x1E), 0x02DC => Some(0x1F),
+        0x2022 => Some(0x80), 0x2020 => Some(0x81), 0x2021 => Some(0x82), 0x2026 => Some(0x83), 0x2014 => Some(0x84), 0x2013 => Some(0x85), 0x0192 => Some(0x86), 0x2044 => Some(0x87),
+        0x2039 => Some(0x88), 0x203A => Some(0x89), 0x2212 => Some(0x8A), 0x2030 => Some(0x8B), 0x201E => Some(0x8C), 0x201C => Some(0x8D), 0x201D => Some(0x8E), 0x2018 => Some(0x8F),
+        0x2019 => Some(0x90), 0x201A => Some(0x91), 0x2122 => Some(0x92), 0xFB01 => Some(0x93), 0xFB02 => Some(0x94), 0x0141 => Some(0x95), 0x0152 => Some(0x96), 0x0160 => Some(0x97),
+        0x0178 => Some(0x98), 0x017D => Some(0x99), 0x0131 => Some(0x9A), 0x0142 => Some(0x9B), 0x0153 => Some(0x9C), 0x0161 => Some(0x9D), 0x017E => Some(0x9E), 0x20AC => Some(0xA0),
+        _ => None,
+    }
+}
+/// password preparation: PDFDocEncoding for revisions 2-4; UTF-8 (the family holds only strings SASLprep leaves alone) cut to 127 bytes for 5-6
+fn prep_password(r: u8, s: &str) -> Option<Vec<u8>> {
+    if r <= 4 { s.chars().map(pdfdoc_byte).collect() } else { let b = s.as_bytes(); Some(b[..b.len().min(127)].to_vec()) }
+}
+
+/// Algorithm 2: file encryption key, revisions 2-4; `n` = key length in bytes
+fn alg2(r: u8, n: usize, pw: &[u8], o: &[u8], p: i32, id0: &[u8], em: bool) -> Vec<u8> {
+    let mut m = pad32(pw).to_vec();                                   // (a), (b)
+    m.extend_from_slice(o);                                           // (c)
+    if pt("p-be") { m.extend_from_slice(&(p as u32).to_be_bytes()); } else { m.extend_from_slice(&(p as u32).to_le_bytes()); } // (d) low-order byte first
+    m.extend_from_slice(id0);                                         // (e)
+    if r >= 4 && !em { m.extend_from_slice(&[0xff; 4]); }             // (f)
+    let mut h = md5(&m);                                              // (g)
+    if r >= 3 {                                                       // (h) 50 times, the first n bytes
+        let rounds = if pt("md5-49") { 49 } else { 50 };
+        for _ in 0..rounds { h = if pt("r3-hash16") { md5(&h) } else { md5(&h[..n]) }; }
+    }
+    h[..n].to_vec()                                                   // (i)
+}
+/// Algorithm 3 steps (a)-(d): RC4 key from the owner password
+fn alg3_key(r: u8, n: usize, owner: &[u8]) -> Vec<u8> {
+    let mut h = md5(&pad32(owner));
+    if r >= 3 { for _ in 0..50 { h = md5(&h); } }
+    h[..n].to_vec()
+}
+fn xor_key(k: &[u8], i: u8) -> Vec<u8> { k.iter().map(|b| b ^ i).collect() }
+/// Algorithm 3: O value. `owner` is the owner password or, if there is none, the user password (step (a))
+fn alg3(r: u8, n: usize, owner: &[u8], user: &[u8]) -> Vec<u8> {
+    let k = alg3_key(r, n, owner);
+    let mut x = rc4(&k, &pad32(user));                                // (e), (f)
+    if r >= 3 { let last = if pt("alg3-18") { 18 } else { 19 }; for i in 1..=last { x = rc4(&xor_key(&k, i), &x); } } // (g)
+    x
+}
+/// Algorithm 4: U value, revision 2
+fn alg4(key: &[u8]) -> Vec<u8> { rc4(key, &PAD) }
+/// Algorithm 5: first 16 bytes of the U value, revisions 3 and 4
+fn alg5(key: &[u8], id0: &[u8]) -> Vec<u8> {
+    let mut m = PAD.to_vec();
+    m.extend_from_slice(id0);
+    let mut x = rc4(key, &md5(&m));
+    for i in 1..=19u8 { x = rc4(&xor_key(key, i), &x); }
+    x
+}
+/// Algorithm 6: authenticate the user password; the file key if it is accepted
+fn alg6(r: u8, n: usize, pw: &[u8], o: &[u8], u: &[u8], p: i32, id0: &[u8], em: bool) -> Option<Vec<u8>> {
+    let key = alg2(r, n, pw, o, p, id0, em);
+    let ok = if r == 2 { u.len() == 32 && alg4(&key) == u } else { u.len() >= 16 && alg5(&key, id0)[..] == u[..16] };
+    if ok { Some(key) } else { None }
+}
+/// Algorithm 7: authenticate the owner password (decrypt O to the padded user password, then Algorithm 6)
+fn alg7(r: u8, n: usize, pw: &[u8], o: &[u8], u: &[u8], p: i32, id0: &[u8], em: bool) -> Option<Vec<u8>> {
+    let k = alg3_key(r, n, pw);
+    let mut x = o.to_vec();
+    if r == 2 { x = rc4(&k, &x); } else { for i in (0..=19u8).rev() { x = rc4(&xor_key(&k, i), &x); } }
+    alg6(r, n, &x, o, u, p, id0, em)
+}
+
+/// Algorithm 2.B (revision 6; revision 5 is the plain SHA-256 of the input)
+fn alg2b(r: u8, pw: &[u8], salt: &[u8], udata: &[u8]) -> Vec<u8> {
+    let mut input = pw.to_vec();
+    input.extend_from_slice(salt);
+    input.extend_from_slice(udata);
+    let mut k = sha256(&input).to_vec();
+    if r == 5 { return k; }
+    let min_rounds = if pt("2b-63") { 63 } else { 64 };
+    let mut round = 0usize;
+    loop {
+        let mut k0 = pw.to_vec();                                     // (a)
+        k0.extend_from_slice(&k);
+        k0.extend_from_slice(udata);
+        let mut k1 = Vec::with_capacity(k0.len() * 64);
+        for _ in 0..64 { k1.extend_from_slice(&k0); }
+        let e = aes_cbc_enc(&k[..16], &k[16..32], &k1);               // (b)
+        let mut rem = 0u32;                                           // (c) first 16 bytes as a big-endian integer, modulo 3
+        for &b in &e[..16] { rem = (rem * 256 + b as u32) % 3; }
+        k = match rem { 0 => sha256(&e).to_vec(), 1 => sha384(&e), _ => sha512(&e) }; // (d)
+        round += 1;                                                   // `round` rounds done; the last one had round number round - 1
+        if round >= min_rounds && (*e.last().unwrap() as usize) + 32 <= round { break; } // (e), (f)
+    }
+    k[..32].to_vec()
+}
+/// Algorithm 8: (U, UE)
+fn alg8(r: u8, pw: &[u8], fkey: &[u8], vsalt: &[u8], ksalt: &[u8]) -> (Vec<u8>, Vec<u8>) {
+    let mut u = alg2b(r, pw, vsalt, &[]);
+    u.extend_from_slice(vsalt);
+    u.extend_from_slice(ksalt);
+    let ue = aes_cbc_enc(&alg2b(r, pw, ksalt, &[]), &[0u8; 16], fkey);
+    (u, ue)
+}
+/// Algorithm 9: (O, OE)
+fn alg9(r: u8, pw: &[u8], fkey: &[u8], vsalt: &[u8], ksalt: &[u8], u48: &[u8]) -> (Vec<u8>, Vec<u8>) {
+    let mut o = alg2b(r, pw, vsalt, u48);
+    o.extend_from_slice(vsalt);
+    o.extend_from_slice(ksalt);
+    let oe = aes_cbc_enc(&alg2b(r, pw, ksalt, u48), &[0u8; 16], fkey);
+    (o, oe)
+}
+/// Algorithm 10: Perms
+fn alg10(p: i32, em: bool, fkey: &[u8], rnd4: &[u8]) -> Vec<u8> {
+    let mut b = if pt("perms-be") { (p as u32).to_be_bytes().to_vec() } else { (p as u32).to_le_bytes().to_vec() };
+    b.extend_from_slice(&[0xff; 4]);
+    b.push(if em { b'T' } else { b'F' });
+    b.extend_from_slice(b"adb");
+    b.extend_from_slice(&rnd4[..4]);
+    aes_ecb_enc(fkey, &b)
+}
+/// Algorithm 2.A with 11 / 12: (file key, "owner" | "user") if `pw` is accepted
+fn alg2a(r: u8, pw: &[u8], o: &[u8], u: &[u8], oe: &[u8], ue: &[u8]) -> Option<(Vec<u8>, &'static str)> {
+    if o.len() < 48 || u.len() < 48 || oe.len() != 32 || ue.len() != 32 { return None; }
+    let pw = &pw[..pw.len().min(127)];
+    if alg2b(r, pw, &o[32..40], &u[..48])[..] == o[..32] {
+        return Some((aes_cbc_dec(&alg2b(r, pw, &o[40..48], &u[..48]), &[0u8; 16], oe), "owner"));
+    }
+    if alg2b(r, pw, &u[32..40], &[])[..] == u[..32] {
+        return Some((aes_cbc_dec(&alg2b(r, pw, &u[40..48], &[]), &[0u8; 16], ue), "user"));
+    }
+    None
+}
+/// Algorithm 13: the decrypted Perms block must carry P, "adb" and the EncryptMetadata flag
+fn alg13(fkey: &[u8], perms: &[u8], p: i32, em: bool) -> Result<(), String> {
+    if perms.len() != 16 { return Err(format!("Perms has {} bytes", perms.len())); }
+    let b = aes_ecb_dec(fkey, perms);
+    if &b[9..12] != b"adb" { return Err(format!("bytes 9-11 of the decrypted Perms are {} instead of 'adb' (decrypted block {})", hex(&b[9..12]), hex(&b))); }
+    if b[..4] != (p as u32).to_le_bytes() { return Err(format!("bytes 0-3 of the decrypted Perms are {} but P = {} is {} low-order byte first", hex(&b[..4]), p, hex(&(p as u32).to_le_bytes()))); }
+    if b[4..8] != [0xff; 4] { return Err(format!("bytes 4-7 of the decrypted Perms are {} instead of ffffffff (Algorithm 10 step (b))", hex(&b[4..8]))); }
+    let want = if em { b'T' } else { b'F' };
+    if b[8] != want { return Err(format!("byte 8 of the decrypted Perms is {:?}, EncryptMetadata {} needs {:?}", b[8] as char, em, want as char)); }
+    Ok(())
+}
+
+#[derive(Clone, Copy, Debug, PartialEq)]
+pub enum Ciph { Rc4, AesV2, AesV3, Identity }
+impl Ciph {
+    fn s(&self) -> &'static str { match self { Ciph::Rc4 => "RC4", Ciph::AesV2 => "AESV2", Ciph::AesV3 => "AESV3", Ciph::Identity => "Identity" } }
+    fn parse(s: &str) -> Ciph { match s { "AESV2" => Ciph::AesV2, "AESV3" => Ciph::AesV3, "Identity" => Ciph::Identity, _ => Ciph::Rc4 } }
+}
+
+/// Algorithm 1 (RC4, AESV2) and 1.A (AESV3): the key for one indirect object
+fn alg1(fkey: &[u8], id: (u32, u16), c: Ciph) -> Vec<u8> {
+    if c == Ciph::AesV3 { return fkey.to_vec(); }
+    let mut m = fkey.to_vec();
+    m.extend_from_slice(&id.0.to_le_bytes()[..3]);                    // low-order 3 bytes of the object number, low-order byte first
+    if pt("gen-be") { m.extend_from_slice(&id.1.to_be_bytes()); } else { m.extend_from_slice(&id.1.to_le_bytes()); } // low-order 2 bytes of the generation
+    if c == Ciph::AesV2 && !pt("no-salt") { m.extend_from_slice(b"sAlT"); }
+    md5(&m)[..(fkey.len() + 5).min(16)].to_vec()
+}
+
+fn ref_encrypt_bytes(fkey: &[u8], id: (u32, u16), c: Ciph, data: &[u8], iv: &[u8]) -> Vec<u8> {
+    match c {
+        Ciph::Identity => data.to_vec(),
+        Ciph::Rc4 => rc4(&alg1(fkey, id, c), data),
+        Ciph::AesV2 | Ciph::AesV3 => {
+            let padn = 16 - data.len() % 16;                          // PKCS#5: always 1..16 bytes
+            let mut p = data.to_vec();
+            p.extend(std::iter::repeat(padn as u8).take(padn));
+            let mut out = iv.to_vec();
+            out.extend_from_slice(&aes_cbc_enc(&alg1(fkey, id, c), iv, &p));
+            out
+        }
+    }
+}
+fn ref_decrypt_bytes(fkey: &[u8], id: (u32, u16), c: Ciph, data: &[u8]) -> Result<Vec<u8>, String> {
+    match c {
+        Ciph::Identity => Ok(data.to_vec()),
+        Ciph::Rc4 => Ok(rc4(&alg1(fkey, id, c), data)),
+        Ciph::AesV2 | Ciph::AesV3 => {
+            if data.len() < 32 || data.len() % 16 != 0 { return Err(format!("AES data of {} bytes is not a 16-byte IV plus a positive number of 16-byte blocks", data.len())); }
+            let p = aes_cbc_dec(&alg1(fkey, id, c), &data[..16], &data[16..]);
+            let n = *p.last().unwrap() as usize;
+            if n == 0 || n > 16 || p[p.len() - n..].iter().any(|&b| b as usize != n) { return Err(format!("bad PKCS#5 padding: last block decrypts to {}", hex(&p[p.len() - 16..]))); }
+            Ok(p[..p.len() - n].to_vec())
+        }
+    }
+}
+
+fn is_type(d: &Dictionary, t: &[u8]) -> bool { matches!(d.get(b"Type"), Ok(Object::Name(n)) if n.as_slice() == t) }
+
+/// which strings and streams a document's security handler touches, and with what
+struct RefCrypt<'a> { fkey: &'a [u8], stm: Ciph, strf: Ciph, em: bool, named: &'a BTreeMap<Vec<u8>, Ciph> }
+
+impl<'a> RefCrypt<'a> {
+    /// the cipher for the content of a stream: XRef streams are handled by the caller; the Metadata stream is exempt iff
+    /// EncryptMetadata is false; a /Crypt filter with DecodeParms /Name overrides StmF (default /Identity)
+    fn stream_cipher(&self, s: &Stream) -> Ciph {
+        if is_type(&s.dict, b"Metadata") && !self.em { return Ciph::Identity; }
+        let first_is_crypt = match s.dict.get(b"Filter") {
+            Ok(Object::Name(n)) => n.as_slice() == b"Crypt",
+            Ok(Object::Array(a)) => matches!(a.first(), Some(Object::Name(n)) if n.as_slice() == b"Crypt"),
+            _ => false,
+        };
+        if first_is_crypt {
+            let name = match s.dict.get(b"DecodeParms") { Ok(Object::Dictionary(p)) => match p.get(b"Name") { Ok(Object::Name(n)) => n.clone(), _ => b"Identity".to_vec() }, _ => b"Identity".to_vec() };
+            return if name == b"Identity" { Ciph::Identity } else { self.named.get(&name).copied().unwrap_or(Ciph::Identity) };
+        }
+        self.stm
+    }
+    fn encrypt(&self, id: (u32, u16), o: &Object, rng: &mut Rng) -> Object {
+        match o {
+            Object::String(b, f) => Object::String(ref_encrypt_bytes(self.fkey, id, self.strf, b, &rng.bytes(16)), *f),
+            Object::Array(a) => Object::Array(a.iter().map(|x| self.encrypt(id, x, rng)).collect()),
+            Object::Dictionary(d) => { let mut n = Dictionary::new(); for (k, v) in d.iter() { n.set(k.clone(), self.encrypt(id, v, rng)); } Object::Dictionary(n) }
+            Object::Stream(s) => {
+                if is_type(&s.dict, b"XRef") { return o.clone(); }
+                let mut n = Dictionary::new();
+                for (k, v) in s.dict.iter() { n.set(k.clone(), self.encrypt(id, v, rng)); }
+                let content = ref_encrypt_bytes(self.fkey, id, self.stream_cipher(s), &s.content, &rng.bytes(16));
+                Object::Stream(Stream::new(n, content))
+            }
+            other => other.clone(),
+        }
+    }
+    /// decrypt `o`; problems (bad padding ...) are appended to `errs` with their path
+    fn decrypt(&self, id: (u32, u16), o: &Object, path: &str, errs: &mut Vec<String>) -> Object {
+        match o {
+            Object::String(b, f) => match ref_decrypt_bytes(self.fkey, id, self.strf, b) {
+                Ok(p) => Object::String(p, *f),
+                Err(e) => { errs.push(format!("string at {} ({}): {}", path, self.strf.s(), e)); o.clone() }
+            },
+            Object::Array(a) => Object::Array(a.iter().enumerate().map(|(i, x)| self.decrypt(id, x, &format!("{}[{}]", path, i), errs)).collect()),
+            Object::Dictionary(d) => { let mut n = Dictionary::new(); for (k, v) in d.iter() { n.set(k.clone(), self.decrypt(id, v, &format!("{}/{}", path, String::from_utf8_lossy(k)), errs)); } Object::Dictionary(n) }
+            Object::Stream(s) => {
+                if is_type(&s.dict, b"XRef") { return o.clone(); }
+                let mut n = Dictionary::new();
+                for (k, v) in s.dict.iter() { n.set(k.clone(), self.decrypt(id, v, &format!("{}/{}", path, String::from_utf8_lossy(k)), errs)); }
+                let c = self.stream_cipher(s);
+                let content = match ref_decrypt_bytes(self.fkey, id, c, &s.content) {
+                    Ok(p) => p,
+                    Err(e) => { errs.push(format!("stream at {} ({}): {}", path, c.s(), e)); s.content.clone() }
+                };
+                Object::Stream(Stream::new(n, content))
+            }
+            other => other.clone(),
+        }
+    }
+}
+
+/// the conforming permission word (ISO 32000-1 table 22 / 32000-2 table 22): bits 1-2 zero, 7-8 one, 13-32 one, as a signed 32-bit integer
+fn conforming_p(access_bits: u32) -> i32 { (0xFFFF_F0C0u32 | (access_bits & 0x0F3C)) as i32 }
+
+// ---- deterministic pseudo-random bytes (file identifier, salts, IVs, U padding) ---------------------------------------
+pub struct Rng(u64);
+impl Rng {
+    fn new(seed: u64) -> Rng { Rng(seed.wrapping_mul(0x9E37_79B9_7F4A_7C15) ^ 0xD1B5_4A32_D192_ED03) }
+    fn next(&mut self) -> u64 {
+        self.0 = self.0.wrapping_add(0x9E37_79B9_7F4A_7C15);
+        let mut z = self.0;
+        z = (z ^ (z >> 30)).wrapping_mul(0xBF58_476D_1CE4_E5B9);
+        z = (z ^ (z >> 27)).wrapping_mul(0x94D0_49BB_1331_11EB);
+        z ^ (z >> 31)
+    }
+    fn bytes(&mut self, n: usize) -> Vec<u8> { (0..n).map(|_| (self.next() >> 24) as u8).collect() }
+}
+
+//@@PART3@@
